@@ -10,6 +10,11 @@ GROUPS = [
          bounded="3 coefficients, state texts of <= 5 characters over digits and commas, symbolic previous state; atof is a one-digit stand-in"),
 ]
 
+NATIVE = [
+    dict(name="e2e_invariants", source="native/e2e_invariants.c", repo_sources="ALL_EXCEPT:", cflags=["-w", "-fsanitize=address"],
+         args={"quick": ["C08"], "thorough": ["C08"]}, exhaustive=False,
+         bound="end-to-end invariants of this property on ~12 real decodes (bundled en-us / fr-fr models; goforward recordings with JSGF grammar, FSG file and forced-alignment text; one call, 2048-sample blocks with partial results, float32; digital silence; white noise) under AddressSanitizer -- a safety net under the contracts, not a proof"),
+]
 ASSUMPTIONS = [
     "callees of the start functions (fe_start inside acmod_start_utt, acmod_start_utt / lattice_free / timers inside decoder_start_utt, fe_reset_noisestats) are replaced by contracts; search-module methods reached through the v-table are stubs",
     "fe_start is checked on a frame size of 4 (the overflow buffer is cleared by a byte loop; CBMC's memset with a symbolic length mis-modelled the clear)",
@@ -18,5 +23,5 @@ HAND_LEMMAS = ["determinism: with every per-utterance field reset to a constant 
 NOT_COVERED = ["fsg_search_start / fsg_history_reset / feat live-buffer reset / cmn_live state", "completeness of the field classification (a mechanical struct-field scan was planned, not built)", "two decoders in one process (writable globals scan not built)", "result determinism end to end"]
 CLAIM = dict(
     text="Reset contracts on three start functions, with the pre-state fully symbolic: after acmod_start_utt every per-utterance field of the acoustic model object (state, both ring indices and counts, output frame, senone-score frame, active senone count, mgau frame index) has a fixed value; after fe_start the overflow buffer is empty and zeroed, pre-emphasis history cleared and noise statistics reset; after an in-protocol decoder_start_utt the previous utterance's lattice, best link, posterior, hypothesis string, JSON line and state aligner are gone and the utterance counter advanced. Setting the channel-normalisation state from text (cmn_set_repr) determines EVERY coefficient of mean and accumulator from the text alone, whatever the state before (bounded: 3 coefficients, texts <= 5 characters). Frame clauses prove nothing else is written. End-to-end isolation and determinism are NOT decided.",
-    note="three reset functions only; search-level resets, CMN, field-classification completeness, globals and end-to-end determinism not covered; trusted: CBMC 6.11",
-    technique="CBMC function contracts (goto-instrument --dfcc) with explicit assigns clauses over a fully symbolic pre-state")
+    note="three reset functions only; search-level resets, CMN, field-classification completeness, globals and end-to-end determinism not covered; trusted: CBMC 6.11; end-to-end invariants on ~12 real decodes by a bounded native run (native/e2e_invariants.c), never counted as proved",
+    technique="CBMC function contracts (goto-instrument --dfcc) with explicit assigns clauses over a fully symbolic pre-state; plus a bounded native run of the property's end-to-end invariants on real decodes (safety net, not proof)")
